@@ -44,3 +44,46 @@ Proof.
   split; [eexists; vm_compute; reflexivity|].
   exists (mkraw (-5001) 4224). split; vm_compute; reflexivity.
 Qed.
+
+(* add_days / days_until are inverse as long as the computation stays on one side of year 0.
+   The side condition is stated on Date::days (D = date_days r): either D >= 0 (years >= 0) and the
+   target D+n is in [0, 365*32768), or D < 0 (years <= -1) and the target is in (-365*32769, -365].
+   The result is again a valid Date, its day number is D+n, and days_until gives back n. *)
+Theorem C13_add_days_until : forall r n D,
+  is_date r -> date_days r = Ok D ->
+  (0 <= D /\ 0 <= D + n < 11960320) \/ (D < 0 /\ -11960685 < D + n <= -365) ->
+  exists r', add_days r n = Ok r' /\ is_date r' /\ date_days r' = Ok (D + n) /\ days_until r r' = Ok n.
+Proof. exact add_days_until. Qed.
+Print Assumptions C13_add_days_until.
+
+(* every valid date has a day number (no panic), of the documented form *)
+Theorem C13_date_days_total : forall r, is_date r ->
+  exists D o, date_days r = Ok D /\ 0 <= o <= 364 /\
+    ((0 <= ry r /\ D = ry r * 365 + o) \/ (ry r < 0 /\ D = ry r * 365 - o)).
+Proof. exact is_date_days. Qed.
+Print Assumptions C13_date_days_total.
+
+(* for years >= 0 (in particular >= 1) the derived Ord agrees with the sign of days_until *)
+Theorem C13_ord_sign : forall r1 r2,
+  is_date r1 -> is_date r2 -> 0 <= ry r1 -> 0 <= ry r2 ->
+  exists n, days_until r1 r2 = Ok n /\ (raw_cmp r1 r2 = Lt <-> 0 < n) /\ (raw_cmp r1 r2 = Eq <-> n = 0)
+            /\ (raw_cmp r1 r2 = Gt <-> n < 0).
+Proof. exact ord_sign. Qed.
+Print Assumptions C13_ord_sign.
+
+(* non-vacuity: 1400.1.2 + 728 days = 1401.12.31 (the crate's doc example); a BC date moving further back;
+   and the documented breakage across year 0 really is outside the hypothesis (the model reproduces
+   that days_until (add_days d n) <> n there) *)
+Example C13_arith_nonvacuous :
+  is_date (mkraw 1400 4352) /\ date_days (mkraw 1400 4352) = Ok 511001 /\
+  add_days (mkraw 1400 4352) 728 = Ok (mkraw 1401 53120) /\
+  is_date (mkraw (-3) 4352) /\ date_days (mkraw (-3) 4352) = Ok (-1096) /\
+  add_days (mkraw (-3) 4352) (-400) = Ok (mkraw (-4) 8960) /\
+  (exists r', add_days (mkraw (-1) 4352) 400 = Ok r' /\ days_until (mkraw (-1) 4352) r' <> Ok 400).
+Proof.
+  split; [exists 1400, 1, 2; repeat split; vm_compute; reflexivity|].
+  split; [vm_compute; reflexivity|]. split; [vm_compute; reflexivity|].
+  split; [exists (-3), 1, 2; repeat split; vm_compute; reflexivity|].
+  split; [vm_compute; reflexivity|]. split; [vm_compute; reflexivity|].
+  eexists. split; [vm_compute; reflexivity|]. vm_compute. discriminate.
+Qed.
